@@ -44,6 +44,13 @@ func (p *Prog) implsOf(pkg, ifacePkg, ifaceName string) []*types.Named {
 
 // methodOf returns the ssa function of method name on *T (or T).
 func (p *Prog) methodOf(n *types.Named, name string) *ssa.Function {
+	for i := 0; i < n.NumMethods(); i++ {
+		if n.Method(i).Name() == name {
+			if f := p.SSA.FuncValue(n.Method(i)); f != nil && f.Blocks != nil {
+				return f
+			}
+		}
+	}
 	for _, T := range []types.Type{types.NewPointer(n), n} {
 		if sel := p.SSA.MethodSets.MethodSet(T).Lookup(n.Obj().Pkg(), name); sel != nil {
 			if f := p.SSA.MethodValue(sel); f != nil && f.Blocks != nil {
